@@ -114,8 +114,12 @@ def build(repo):
     ob = m.end() - 1
     cb = match_brace(mk, ob, "{", "}")
     me = re.match(r"\s*else\s*\{", blk.text[cb + 1:])
-    if not me:
-        raise Undecided("recording block: `if let Some(v) = ….get_mut(f) {…}` has no else branch")
+    no_else = me is None
+    if no_else:
+        # `if let Some(v) = M.get_mut(K) { B }` without an else branch: R16 with an empty E
+        blk.text = blk.text[:cb + 1] + " else { }" + blk.text[cb + 1:]
+        mk = mask(blk.text)
+        me = re.match(r"\s*else\s*\{", blk.text[cb + 1:])
     v, k = m.group(1), m.group(2)
     body = blk.text[ob + 1:cb]
     # Vec<String>::contains on the entry (any use of it other than push / contains is outside the shim)
@@ -136,9 +140,16 @@ def build(repo):
     blk.sub(r"let mut v = Vec::new\(\);", "let mut v: Vec<String> = Vec::new();", "R3-type", expect=(0, 1))
     fm = common.Fmt({"*var": ("str", "var")})
     fm.apply(blk)
+    free = []
+    for m_ in re.finditer(r"\bif !?([a-z_]\w*) \{", mask(blk.text)):
+        nm = m_.group(1)
+        if nm not in free and nm not in ("f", "var", "pos", "fixed_bank", "self") and not re.search(r"\blet (?:mut )?%s\b" % nm, blk.text) and not re.search(r"\bSome\(%s\)" % nm, blk.text):
+            free.append(nm)
+    if free:
+        blk.log.append("R8 free boolean variables of the window (set before it in the enclosing function) -> parameters: %s" % ", ".join(free))
     fn = """
     // R8: generate_function_call(), from the interrupt check through the call-tree recording, verbatim; free variables are parameters
-    pub fn call_block(&mut self, f: &Function, var: &String, pos: usize, fixed_bank: u32) -> (res: Result<ExprType, Error>)
+    pub fn call_block(&mut self, f: &Function, var: &String, pos: usize, fixed_bank: u32%(free)s) -> (res: Result<ExprType, Error>)
         ensures
             // every successful path emits exactly one call of the callee: an inline expansion, a JSR, or a JSR to its bank-switching stub
             res is Ok ==> (final(self).pushed@.len() + final(self).jsr@.len() == old(self).pushed@.len() + old(self).jsr@.len() + 1), //@ C12:call-emitted-once
@@ -162,7 +173,7 @@ def build(repo):
         }
         Ok(ExprType::Nothing)
     }
-""" % blk.text
+""".replace("%(free)s", "".join(", %s: bool" % x for x in free)).replace("%s", "%(body)s") % {"body": blk.text}
     fshim, fcut = common.plain_fields_shim(SourceFile(repo, "src/compile.rs"), "Function", "Function")
     fshim = fshim.replace(" }", ", pub code: Option<u8> }")      # `code` is only tested with is_some()
     specs = SPECS.replace("%(function_shim)s", fshim)
